@@ -16,13 +16,14 @@ import (
 func init() {
 	register(&propDef{
 		id:      "C37",
-		explain: "Structural necessary conditions of race freedom for the state fasthttp itself shares between goroutines (a discipline check, not a race detector): (E8) every access to a field in the guarded-by table happens with its mutex held - the table was discovered from field/lock co-occurrence statistics over the whole module, confirmed entry by entry by reading, and is frozen in the checker with one reason per exemption; helper functions documented to run with the lock held are analysed with the lock held and every call site is checked to hold it; (atomic) a field that is accessed through sync/atomic functions anywhere is accessed only through them; (publish) objects that are read without a lock after publication (DNS cache entries in a sync.Map) have their payload fields assigned only while freshly allocated, never after they became reachable by other goroutines. The table is extended on every run with the Server fields that RequestCtx methods read (handler goroutines, which may outlive their connection after TimeoutError) and that Server methods assign: their plain accesses must hold Server.mu (a field of an atomic type has none). (R-own) no store into a pointer-, channel-, map-, slice- or interface-typed field of a RequestCtx takes its value from the same field of another RequestCtx (connection-level fields excepted, each with a reason): the ctx left with a timed-out handler goroutine and the fresh ctx of the connection goroutine never share a completion channel or timer. (R-item) in the pipeline client's call paths a work item goes back to its pool only if it was never queued or its completion was received - between those points the connection goroutines own it. Not decided: state outside the table, user handlers, happens-before through channels, the schedules a race detector would need.",
+		explain: "Structural necessary conditions of race freedom for the state fasthttp itself shares between goroutines (a discipline check, not a race detector): (E8) every access to a field in the guarded-by table happens with its mutex held - the table was discovered from field/lock co-occurrence statistics over the whole module, confirmed entry by entry by reading, and is frozen in the checker with one reason per exemption; helper functions documented to run with the lock held are analysed with the lock held and every call site is checked to hold it; (atomic) a field that is accessed through sync/atomic functions anywhere is accessed only through them; (publish) objects that are read without a lock after publication (DNS cache entries in a sync.Map) have their payload fields assigned only while freshly allocated, never after they became reachable by other goroutines. The table is extended on every run with the Server fields that RequestCtx methods read (handler goroutines, which may outlive their connection after TimeoutError) and that Server methods assign: their plain accesses must hold Server.mu (a field of an atomic type has none). (R-own) no store into a pointer-, channel-, map-, slice- or interface-typed field of a RequestCtx takes its value from the same field of another RequestCtx (connection-level fields excepted, each with a reason): the ctx left with a timed-out handler goroutine and the fresh ctx of the connection goroutine never share a completion channel or timer. (R-embed) the embedded connection of a pooled per-IP wrapper - read without a lock by the compiler-generated promoted methods - is assigned only in a function that has just taken the wrapper from its pool or allocated it; (R-item) in the pipeline client's call paths a work item goes back to its pool only if it was never queued or its completion was received - between those points the connection goroutines own it. Not decided: state outside the table, user handlers, happens-before through channels, the schedules a race detector would need.",
 		run:     runC37,
 	})
 }
 
 func runC37(p *Prog, r *Report) {
 	ctxFieldsNotShared(p, r)
+	wrapperConnWrittenOnlyWhenPrivate(p, r)
 	// a pipelined work item is shared with the connection goroutines from the moment it is queued until its completion
 	// is received: giving it back to the pool in between hands it to the next caller while they still use it
 	runPipelineCaller(p, r, "C37")
@@ -327,4 +328,57 @@ func ctxFieldsNotShared(p *Prog, r *Report) {
 		}
 	}
 	r.Counts["R-own copies of a RequestCtx field from another ctx"] = n
+}
+
+// wrapperConnWrittenOnlyWhenPrivate (C37.R-embed): the serving goroutine reads the embedded connection of a per-IP
+// wrapper through the promoted methods (Read, SetReadDeadline ...) - in compiler-generated code that takes no lock -
+// while another goroutine (Shutdown closing idle connections, a handler closing its own connection) may call Close.
+// The embedded connection field is therefore assigned only where the wrapper is private: in a function that has
+// just taken it from its pool or allocated it. Close must leave the field alone.
+func wrapperConnWrittenOnlyWhenPrivate(p *Prog, r *Report) {
+	isWrapper := func(t types.Type) bool {
+		if pt, ok := t.Underlying().(*types.Pointer); ok {
+			t = pt.Elem()
+		}
+		st, ok := t.Underlying().(*types.Struct)
+		if !ok {
+			return false
+		}
+		for i := 0; i < st.NumFields(); i++ {
+			if strings.HasSuffix(st.Field(i).Type().String(), "*"+rootPkg+".perIPConnCounter") {
+				return true
+			}
+		}
+		return false
+	}
+	n := 0
+	for _, fn := range p.funcsIn("") {
+		takes := false
+		allCalls(fn, func(b *ssa.BasicBlock, c ssa.CallInstruction) {
+			if f := c.Common().StaticCallee(); f != nil && f.Name() == "Get" && recvTypeName(f) == "Pool" {
+				takes = true
+			}
+		})
+		for _, b := range fn.Blocks {
+			for _, in := range b.Instrs {
+				st, ok := in.(*ssa.Store)
+				if !ok {
+					continue
+				}
+				fa, ok := st.Addr.(*ssa.FieldAddr)
+				if !ok || !isWrapper(fa.X.Type()) {
+					continue
+				}
+				fv := fieldVar(fa.X.Type(), fa.Field)
+				if fv == nil || !fv.Embedded() {
+					continue
+				}
+				n++
+				_, fresh := fa.X.(*ssa.Alloc)
+				r.Check("R-embed", fmt.Sprintf("%s: the embedded connection of a pooled wrapper is assigned only where the wrapper is private", funcName(fn)), takes || fresh, p.Pos(st.Pos()),
+					"the embedded connection is assigned in a function that neither took the wrapper from its pool nor allocated it: the serving goroutine reads that field without a lock on every promoted call, so the assignment races with it (and a later promoted call finds a nil connection)")
+			}
+		}
+	}
+	r.Floor("R-embed", "assignments of a wrapper's embedded connection", n, 2)
 }
